@@ -14,7 +14,7 @@ from hypothesis import strategies as st
 
 
 def shapes(max_depth=3, max_leaves=6):
-    site = st.tuples(st.just("site"), st.sampled_from(["normal", "normal", "uniform"]), st.sampled_from([[], [], [], [2], [3], [2, 2]])).map(list)
+    site = st.tuples(st.just("site"), st.sampled_from(["normal", "normal", "uniform", "uniform_kw", "normal_kw"]), st.sampled_from([[], [], [], [2], [3], [2, 2]])).map(list)
 
     def ext(ch):
         return st.one_of(
@@ -68,11 +68,22 @@ def build(node):
     D = {"normal": genjax.normal, "uniform": genjax.uniform}
     counter = [0]
 
+    def _draw(nd):
+        """standard-parameter draw; the *_kw variants pass the parameters by keyword (names whose sorted order differs
+        from the positional order for uniform)"""
+        kind, shp = nd[1], tuple(nd[2])
+        extra = {"sample_shape": shp} if shp else {}
+        if kind == "uniform_kw":
+            return genjax.uniform.sample(low=0.0, high=1.0, **extra)
+        if kind == "normal_kw":
+            return genjax.normal.sample(scale=1.0, loc=0.0, **extra)
+        return D[kind].sample(0.0, 1.0, **extra)
+
     def run(nd, scale, out, path, last):
         """Executes nd, writes draws into `out` (dict position->array), returns (a scalar summary of the draws)."""
         k = nd[0]
         if k == "site":
-            v = D[nd[1]].sample(0.0, 1.0, sample_shape=tuple(nd[2])) if nd[2] else D[nd[1]].sample(0.0, 1.0)
+            v = _draw(nd)
             out[path] = v * scale
             return jnp.sum(v)
         if k == "seq":
@@ -141,8 +152,8 @@ def build(node):
         k = nd[0]
         if k == "site":
             n = len(out)
-            if nd[2]:
-                v = D[nd[1]].sample(0.0, 1.0, sample_shape=tuple(nd[2]))
+            if nd[2] or nd[1].endswith("_kw"):
+                v = _draw(nd)
             else:
                 v = D[nd[1]](0.0, 1.0) @ f"a{n}"
             out[path + f"/a{n}"] = v * scale
